@@ -232,7 +232,8 @@ impl AsmParser {
                     }
                 };
 
-                let len = if self.tok_end < tok.span.offs() {
+                // `tok_end` is stale (no operand consumed) if it does not lie after this token
+                let len = if self.tok_end <= tok.span.offs() {
                     tok.span.len()
                 } else {
                     self.tok_end - tok.span.offs()
